@@ -176,7 +176,7 @@ fn never_delivered<T: Scalar>(spec: &Spec, depth: usize, st: &mut Stats, sink: &
 /// long runs for the recursive views: Some and finite for 5000 steps
 fn long_run<T: Scalar>(spec: &Spec, st: &mut Stats, sink: &Sink) {
     let prefixes = sequences_upto(&[0.0, 1.0, -1.0], 3);
-    let tails: [&[f64]; 2] = [&[1.0, -1.0], &[1.0, 0.0, -1.0]];
+    let tails: [&[f64]; 4] = [&[1.0, -1.0], &[1.0, 0.0, -1.0], &[0.0], &[0.7]];
     st.configs += 1;
     for p in &prefixes {
         for tail in tails {
